@@ -177,6 +177,20 @@ fn c17_salted_assertions() -> R {
         ensure!(bytes(&again) == bytes(&r), "unsalted add is not deterministic", "");
     }
     if let Err(m) = well_formed(&r) { return rt::viol("envelope with salted assertion not canonical", m); }
+    if !salted {
+        // equal input values give equal envelopes, also when the object is an unordered collection built twice in different orders
+        op("add_assertion_salted (unsalted, set / map object)");
+        let items: Vec<String> = (0..5).map(|i| leaf_text(980 + i)).collect();
+        let s1: std::collections::HashSet<String> = items.iter().cloned().collect();
+        let s2: std::collections::HashSet<String> = items.iter().rev().cloned().collect();
+        let (x1, x2) = (e.add_assertion_salted(p.clone(), s1, false), e.add_assertion_salted(p.clone(), s2, false));
+        ensure!(bytes(&x1) == bytes(&x2), "unsalted add of equal sets gives different envelopes", "");
+        let m1: std::collections::HashMap<String, u32> = items.iter().cloned().enumerate().map(|(i, k)| (k, i as u32)).collect();
+        let m2: std::collections::HashMap<String, u32> = items.iter().cloned().enumerate().rev().map(|(i, k)| (k, i as u32)).collect();
+        let (y1, y2) = (e.add_assertion_salted(p.clone(), m1, false), e.add_assertion_salted(p.clone(), m2, false));
+        ensure!(bytes(&y1) == bytes(&y2), "unsalted add of equal maps gives different envelopes", "");
+        ensure!(must!(x1.add_assertion_envelope_salted(x2.assertions_with_predicate(p.clone()).into_iter().find(|a| !had.contains(&bytes(a))).unwrap_or(plain.clone()), false), "add refused").assertions().len() == x1.assertions().len(), "an unsalted assertion over an equal set is not recognised as present", "");
+    }
     // the optional lookup forms find the salted assertion too
     if had_matches == 0 {
         op("optional_object_for_predicate (salted assertion)");
@@ -333,6 +347,16 @@ fn c18_request() -> R {
         let e2: Envelope = back.into();
         ensure!(bytes(&e2) == bytes(&env), "re-encoded request differs", "");
     }
+    // the 'note' / 'date' predicate obscured in place (lookups match predicates by digest): if the request still parses, it
+    // parses to the same note and date
+    op("Request::try_from (a well-known predicate obscured in place)");
+    for kv in [known_values::NOTE, known_values::DATE] {
+        let red = if kv == known_values::NOTE { env.elide_removing_target(&Envelope::new(kv.clone())) } else { env.elide_removing_target_with_action(&Envelope::new(kv.clone()), &ObscureAction::Compress) };
+        ensure!(dg(&red) == dg(&env), "digest changed by obscuring", "");
+        if let Ok(back) = Request::try_from(red) {
+            ensure!(back.note() == note && back.date() == dates(di).as_ref(), "request with an obscured 'note' / 'date' predicate parses to another note / date", "obscured '{}': note {:?} date {:?}", kv.name(), back.note(), back.date());
+        }
+    }
     let canonical = fi == 0 && di == 1 && body.expression_envelope().assertions().is_empty();
     let fj = if canonical { [0usize, 3, 5][choice(3)] } else { fi };
     let same = Envelope::new(fs[fj].1.clone()).digest() == Envelope::new(fs[fi].1.clone()).digest();
@@ -417,6 +441,7 @@ fn c18_response() -> R {
     let the = env.assertions()[0].clone();
     let bads = vec![
         ("both result and error", if has_result { env.add_assertion(known_values::ERROR, "e") } else { env.add_assertion(known_values::RESULT, "r") }),
+        ("both result and error, the extra one's predicate elided", if has_result { env.add_assertion(known_values::ERROR, "e").elide_removing_target(&Envelope::new(known_values::ERROR)) } else { env.add_assertion(known_values::RESULT, "r").elide_removing_target(&Envelope::new(known_values::RESULT)) }),
         ("both result and error, the extra one carrying an assertion", if has_result { env.add_assertion_envelope(Envelope::new_assertion(known_values::ERROR, "e").add_assertion("k", "v")).unwrap() } else { env.add_assertion_envelope(Envelope::new_assertion(known_values::RESULT, "r").add_assertion("k", "v")).unwrap() }),
         ("neither result nor error", env.remove_assertion(the.clone()).add_assertion("other", 1)),
         ("bare subject", env.subject()),
@@ -425,6 +450,9 @@ fn c18_response() -> R {
         ("subject untagged", env.replace_subject(Envelope::new(arid(2)))),
         ("result with an unknown-value subject other than 'Unknown'", Envelope::new(CBOR::to_tagged_value(40005u64, KnownValue::new(5))).add_assertion(known_values::ERROR, "e")),
         ("success with 'Unknown' id", Envelope::new(CBOR::to_tagged_value(40005u64, known_values::UNKNOWN_VALUE)).add_assertion(known_values::RESULT, "r")),
+        ("failure whose subject holds the bare number of 'Unknown' instead of the known value", Envelope::new(CBOR::to_tagged_value(40005u64, known_values::UNKNOWN_VALUE.value())).add_assertion(known_values::ERROR, "e")),
+        ("failure whose subject holds another bare number", Envelope::new(CBOR::to_tagged_value(40005u64, 5u64)).add_assertion(known_values::ERROR, "e")),
+        ("failure whose subject holds text", Envelope::new(CBOR::to_tagged_value(40005u64, "id")).add_assertion(known_values::ERROR, "e")),
     ];
     let (bn, bad) = &bads[choice(bads.len())];
     ensure!(Response::try_from(bad.clone()).is_err(), "malformed response accepted", "{} ({})", bn, label);
@@ -454,6 +482,13 @@ fn c18_event() -> R {
             ensure!(back.id() == arid(3) && back.note() == note && back.date() == dates(di).as_ref(), "parsed event fields differ", "");
             let e2: Envelope = back.into();
             ensure!(bytes(&e2) == bytes(&env), "re-encoded event differs", "");
+        }
+        op("Event::try_from (a well-known predicate obscured in place)");
+        for kv in [known_values::NOTE, known_values::DATE] {
+            let red = if kv == known_values::DATE { env.elide_removing_target(&Envelope::new(kv.clone())) } else { env.elide_removing_target_with_action(&Envelope::new(kv.clone()), &ObscureAction::Compress) };
+            if let Ok(back) = Event::<$t>::try_from(red) {
+                ensure!(back.note() == note && back.date() == dates(di).as_ref(), "event with an obscured 'note' / 'date' predicate parses to another note / date", "obscured '{}'", kv.name());
+            }
         }
         op("Event::try_from (malformed)");
         let bads = vec![
@@ -519,6 +554,16 @@ fn c19_attachments() -> R {
         0 => ensure!(matches!(single.as_ref().err().and_then(|x| x.downcast_ref::<EnvelopeError>()), Some(EnvelopeError::NonexistentAttachment)), "no match must be NonexistentAttachment", ""),
         1 => ensure!(single.is_ok(), "single match not returned", ""),
         _ => ensure!(matches!(single.as_ref().err().and_then(|x| x.downcast_ref::<EnvelopeError>()), Some(EnvelopeError::AmbiguousAttachment)), "several matches must be AmbiguousAttachment", ""),
+    }
+    // the 'attachment' predicate obscured in place: the attachments are still found (matching is by digest)
+    op("attachments (the 'attachment' predicate obscured in place)");
+    {
+        let red = if natt % 2 == 1 { e.elide_removing_target(&Envelope::new(known_values::ATTACHMENT)) } else { e.elide_removing_target_with_action(&Envelope::new(known_values::ATTACHMENT), &ObscureAction::Compress) };
+        ensure!(dg(&red) == dg(&e), "digest changed by obscuring", "");
+        let got = must!(red.attachments(), "attachments() failed after the 'attachment' predicate was obscured");
+        ensure!(got.len() == distinct.len(), "attachments() no longer returns the added attachments after the 'attachment' predicate was obscured", "{} vs {}", got.len(), distinct.len());
+        let red2 = e.elide_removing_target(&Envelope::new(known_values::VENDOR));
+        if let Ok(got2) = red2.attachments_with_vendor_and_conforms_to(Some(vendors[distinct[0].1]), None) { ensure!(got2.len() == distinct.iter().filter(|(_, v, _)| *v == distinct[0].1).count(), "vendor filter returns another set after the 'vendor' predicate was obscured", "{}", got2.len()); }
     }
     // other assertions and the subject are untouched; Attachments container agrees
     ensure!(bytes(&e.subject()) == bytes(&base.subject()), "add_attachment changed the subject", "");
@@ -654,6 +699,14 @@ fn c19_types() -> R {
     if nadded == 1 { let i = added.iter().position(|x| *x).unwrap(); ensure!(g.as_ref().map(dg).ok() == Some(dg(&pool[i].1)), "get_type does not return the single type", ""); }
     else { ensure!(g.is_err(), "get_type must fail unless there is exactly one type", "{} types", nadded); }
     ensure!(bytes(&e.subject()) == bytes(&base.subject()), "add_type changed the subject", "");
+    // the 'isA' predicate obscured in place: the types are still reported (matching is by digest)
+    op("types / has_type_envelope (the 'isA' predicate obscured in place)");
+    if nadded > 0 {
+        let red = if nadded % 2 == 1 { e.elide_removing_target(&Envelope::new(known_values::IS_A)) } else { e.elide_removing_target_with_action(&Envelope::new(known_values::IS_A), &ObscureAction::Compress) };
+        ensure!(dg(&red) == dg(&e), "digest changed by obscuring", "");
+        ensure!(red.types().len() == nadded, "types() no longer returns the added types after the 'isA' predicate was obscured", "{} vs {}", red.types().len(), nadded);
+        for (i, (name, t)) in pool.iter().enumerate() { ensure!(red.has_type_envelope(t.clone()) == added[i], "has_type_envelope wrong after the 'isA' predicate was obscured", "{}", name); }
+    }
     Ok(())
 }
 
